@@ -327,8 +327,19 @@ func lossValue(v, ov interface{}, parentProp string, path string) string {
 	return ""
 }
 
+// aliasedFeature is the one feature of every finding on a document whose
+// context gives a vocabulary an alias: what fails there fails for the alias,
+// whatever the member.
+const aliasedFeature = "document whose @context gives the vocabulary an alias ({vocabulary: alias}), names prefixed"
+
 func c01Judge(r *verdict.Run, cs c01Case) {
 	r.Eval(1)
+	diffFeature := func(d string) string {
+		if cs.Class == "aliased" {
+			return aliasedFeature
+		}
+		return diffFeature(d)
+	}
 	pristine := deepCopy(cs.Doc).(map[string]interface{})
 	work := deepCopy(cs.Doc).(map[string]interface{})
 	t, err, pan := decode(work)
@@ -377,7 +388,11 @@ func c01Judge(r *verdict.Run, cs c01Case) {
 		return
 	}
 	if err2 != nil || t2 == nil {
-		r.Violate(verdict.Sig{Rule: "C01.output-not-decodable", Site: "streams.ToType", Feature: fmt.Sprint(cs.Doc["type"])}, cs, map[string]interface{}{"err": fmt.Sprint(err2), "output": o1})
+		ndFeat := fmt.Sprint(cs.Doc["type"])
+		if cs.Class == "aliased" {
+			ndFeat = aliasedFeature
+		}
+		r.Violate(verdict.Sig{Rule: "C01.output-not-decodable", Site: "streams.ToType", Feature: ndFeat}, cs, map[string]interface{}{"err": fmt.Sprint(err2), "output": o1})
 		return
 	}
 	out2, err, pan := encode(t2)
@@ -618,6 +633,38 @@ func runC01(id string) int {
 	for _, ex := range vocabExamples() {
 		emitMut(c01Case{Class: "accepted", Origin: "vocabulary-example", Doc: ex})
 	}
+	// documents whose context gives the ActivityStreams vocabulary an alias,
+	// in the one form the decoder honours ({vocabulary: alias}): type and
+	// property names carry the prefix; members without it are unknown
+	// members and have to survive like any other
+	nAl := 0
+	for _, T := range O.TypeKeys {
+		kt := O.Types[T]
+		if kt.Typeless || kt.VocabURI != "https://www.w3.org/ns/activitystreams" {
+			continue
+		}
+		for v := 0; v < 3; v++ {
+			doc := map[string]interface{}{
+				"@context":   map[string]interface{}{"https://www.w3.org/ns/activitystreams": "as"},
+				"type":       "as:" + kt.Name,
+				"id":         "https://example.com/aliased/" + kt.Name,
+				"x-unknown":  unknownProbe(),
+				"as:summary": "prefixed: a property of the vocabulary",
+			}
+			switch v {
+			case 1:
+				// unprefixed members named like properties of the type
+				doc["name"] = "unprefixed: an unknown member under this context"
+				doc["attributedTo"] = "https://example.com/someone"
+			case 2:
+				doc["as:name"] = "prefixed"
+				doc["name"] = "unprefixed"
+			}
+			nAl++
+			ch <- c01Case{Class: "aliased", Origin: fmt.Sprintf("aliased:%s:%d", kt.Name, v), Doc: doc}
+		}
+	}
+	r.Count("aliased_documents", nAl)
 	r.Count("mutated_and_example_documents", nMut)
 	close(ch)
 	wg.Wait()
